@@ -89,7 +89,7 @@ func (s *burstyStats[R]) acquirePermits(requestedPermits int, maxWaitTime time.D
 		elapsedPermits := elapsedPeriods * s.periodPermits
 		s.currentPeriod = newCurrentPeriod
 		if s.availablePermits < 0 {
-			s.availablePermits += elapsedPermits
+			s.availablePermits = min(s.availablePermits+elapsedPermits, s.periodPermits)
 		} else {
 			s.availablePermits = s.periodPermits
 		}
